@@ -391,7 +391,7 @@ std::string gen(Rng &r, const Args &a) {
   if (r.below(5) == 0) {
     int64_t e = (int64_t)g.esz[0];
     int64_t c1 = r.range(-20, 20), c2 = r.range(-20, 20), c3 = r.range(-20, 20);
-    switch (r.below(9)) {
+    switch (r.below(10)) {
     case 0: // copy of a summary, then loads from both arrays (relation between summaries)
       if (can_assign && !g.single[0]) {
         int64_t j = r.range(0, 3);
@@ -431,6 +431,16 @@ std::string gen(Rng &r, const Args &a) {
                        : " (ainit 0 a0 (lin 0) (lin " + std::to_string(e - 1) + ") (lin " + std::to_string(c3) + ")) (arange 0 a0 (lin " + std::to_string(e) + ") (lin " + std::to_string(e - 1) + " (1 v0)) (lin " + std::to_string(c1) + "))")
           << " (astore 0 a0 (lin 0) (lin " << c2 << ") 0) (range 0 v1 0 " << r.range(1, 3) << ")"
           << " (aload 0 v2 a0 (lin 0 (" << e << " v1))) (aload 0 v3 a0 (lin " << e * r.range(0, 2) << "))";
+      }
+      break;
+    case 8: // join of a value whose NUMERICAL part is top but whose array part is not (cells initialised with an
+            // unconstrained value) with a value that has more cells; then stores to the common cells and a symbolic load
+      if (!g.single[0] && NP >= 3) {
+        int64_t n1 = r.range(1, 3), n2 = n1 + r.range(1, 2);
+        o << " (top 1) (top 2) (ainit 1 a0 (lin 0) (lin " << n1 * e - 1 << ") (lin 0 (1 v3))) (ainit 2 a0 (lin 0) (lin " << n2 * e - 1 << ") (lin " << c1 << "))"
+          << (r.coin() ? " (join 0 1 2)" : " (join 0 2 1)");
+        for (int64_t k = 0; k < n1; k++) o << " (astore 0 a0 (lin " << k * e << ") (lin " << c2 << ") 0)";
+        o << " (range 0 v1 0 " << n2 - 1 << ") (aload 0 v2 a0 (lin 0 (" << e << " v1)))";
       }
       break;
     case 7: // range store with symbolic bounds in the middle of an initialised array, then a symbolic load
